@@ -2,7 +2,7 @@
 import os, json, subprocess, shutil, tempfile
 import numpy as np
 from concurrent.futures import ThreadPoolExecutor
-from .. import common, build, execlib
+from .. import common, build, execlib, failrun
 from ..sweeprun import san_env, parse_san_logs
 from . import c16
 
@@ -89,6 +89,9 @@ def requests(L, wrapped, rng, per_fn):
         ('Crystal_F_H_StructureFactor_Partial', dict(s=pick(CRYSTALS), i=[hk(), hk(), hk(), pick([0, 1, 2, 3]), pick([0, 2, 1]), pick([0, 2, -1])], d=[pick(E), pick([0.5, 1.0]), pick([0.5, 1.0])])),
         ('Crystal_UnitCellVolume', dict(s=CRYSTALS * 3)),
         ('Atomic_Factors', dict(i=[pick(c16.DOM['Z'])], d=[pick(E), pick(c16.DOM['q']), pick([-1.0, 0.5, 1.0])])),
+        # only some of the three outputs requested (NULL for the others), with arguments that are invalid for ONE component only
+        ('Atomic_Factors', dict(i=[pick([1, 14, 29, 82, 92, 0, 101]), 8 + rng.integers(0, 8, k)],
+                                d=[pick([-1.0, 0.0, 0.0005, 1.0, 10.0, 100.0, 1e7]), pick([-1.0, 0.0, 0.5, 3.0, 1e12]), pick([-1.0, 0.0, 0.5, 1.0])])),
         ('SymbolToAtomicNumber', dict(s=pick(['Fe', 'H', 'Uuo', 'Xx', '', 'fe', 'Pb', 'Og', 'He']))),
         ('AtomicNumberToSymbol', dict(i=[np.arange(-3, 126)])),
         ('CompoundParser_summary', dict(s=pick(STRS))),
@@ -162,6 +165,14 @@ def main(tier):
                         tot[k] += x[k]
                     if x.get('scenario_accepted', -1) >= 0:
                         scen['accepted'] += x['scenario_accepted']; scen['refused'] += x['scenario_refused']
+    # allocation failpoints: the only way to the MEMORY -> std::bad_alloc path (no argument makes the library report XRL_ERROR_MEMORY)
+    fail = {}
+    for config in (('shipped',) if tier == 'quick' else ('shipped', 'kissel')):
+        fr = failrun.run(config)
+        failrun.report(ck, fr, 'C18')
+        fail[config] = dict(fr['summary'], scenarios_list=[x['name'] for x in fr['scenarios']][:60])
+        if fr['summary']['c_reported_memory_error'] < 5 or fr['summary']['wrapper_bad_alloc'] < 5:
+            raise common.Inconclusive('the failpoint monitor hardly reached the memory-error path: %r' % fr['summary'])
     calls = sum(s['calls'] for s in stats.values())
     outcome_pairs = sum(1 for s in stats.values() for k in ('value', 'invalid_argument', 'bad_alloc', 'runtime_error') if s[k])
     if scen['accepted'] < 100 or scen['refused'] < 2:
@@ -172,7 +183,7 @@ def main(tier):
                rule='every C function that has a callable wrapper in xrlpp (decided by compile probes) x seeded samples of the discrete argument space and '
                     'continuous/string domains incl. every failing argument class; C called with an error slot, wrapper in a try block, compared bit for bit / '
                     'field by field, exception type and what() against the C code and message; ASan allocation balance around both paths (3-repetition rule), '
-                    'object wrappers used after the C originals are released; distinct = (wrapper, outcome class) pairs observed',
+                    'object wrappers used after the C originals are released; allocation failpoints (every library allocation of 34 C/wrapper scenario pairs failed in turn, in forked children: where C reports XRL_ERROR_MEMORY the wrapper must throw bad_alloc and neither side may leak); distinct = (wrapper, outcome class) pairs observed',
                samples=[dict(wrapper=k, **v) for k, v in sorted(stats.items())][:10], wrappers_driven=len(stats), wrappers_found_by_probe=len(wrapped_names),
-               leak_rechecks=tot['leakchecks'], addcrystal_scenario=scen, requests_skipped_null_string=tot['skipped'], per_wrapper=stats)
+               leak_rechecks=tot['leakchecks'], addcrystal_scenario=scen, allocation_failpoints=fail, requests_skipped_null_string=tot['skipped'], per_wrapper=stats)
     return ck.finish(cov, ['g++ -std=c++11 -fsanitize=address,undefined', 'std::string cannot express a NULL compound: those tuples are skipped'])
